@@ -156,6 +156,18 @@ CHECKS["C15"] = dict(level="model_checking", ref="DESIGN.md §4 C15, §9",
     note="Trusted: TLC; SHA-256 as perfect hash. Over-denial (a peer enabled by the history but refused) is not judged. TLS fingerprints and proxy routes are not covered.",
     tech="TLA+ symbolic model Handshake model-checked by TLC; cookie / replay / permission cases recorded on real nodes validated by TLC against spec/Access.tla")
 
+CHECKS["C10"] = dict(level="fault_enumeration", ref="DESIGN.md §4 C10, §9",
+    text="TLA+ model TreeModel of an ownership tree (processes starting / running / dead, faults deferred while a child is being started, restarts, failing "
+         "Init, the exit cascade) is model-checked: NoOrphanQ holds for the repaired design and TLC must find the orphan left by a failed Init in the former one. "
+         "Fault enumeration on real trees (application -> supervisors of every type and strategy -> pools, simple-one-for-one children, workers; 4-6 shapes): every "
+         "process x kill / exit / crash / panic; a fault on any process while another one is inside its Init during a restart or during start-up, or inside "
+         "Terminate during a shutdown (gates in the tree's behaviours); failing Init at start-up and during a restart; 2-3 faults in a row; application stop and "
+         "node stop, also right after faults. spec/Tree.tla judges the state recorded at quiescence: nothing alive whose owner is gone, stop calls return, return "
+         "only when everything below is gone, node stop ran every Terminate.",
+    note="Trusted: TLC. Fault points are the yield points of the tree's own behaviours (Init, Terminate, between operations), not arbitrary points inside framework "
+         "code. Open known findings P24 / P24b: pools and abnormally terminated owners take their children down asynchronously, so a stop call can return first.",
+    tech="TLA+ model TreeModel model-checked by TLC; fault scripts executed on real supervision trees, end states validated by TLC against spec/Tree.tla")
+
 NOT_YET = {
 }
 
